@@ -216,16 +216,19 @@ func jMutations(root *jn, nBases int) []jMut {
 					pp.keys = append(pp.keys, pp.keys[idx])
 					pp.vals = append(pp.vals, pp.vals[idx].clone())
 				})
-				if isIntKey(par.keys[idx]) {
-					for _, nk := range []string{"-1", "0", strconv.Itoa(nBases), "2147483648", "99999999999999999999", "x"} {
-						nk := nk
-						add("re-key:"+nk, "re-key "+name+" to "+nk, func(r *jn) { r.at(parentPath).keys[idx] = nk })
+				// every map / object entry is re-keyed (integer-keyed attribute maps and name-keyed maps such
+				// as the non-revocation responses alike)
+				for _, nk := range []string{"-1", "0", strconv.Itoa(nBases), "2147483648", "99999999999999999999", "x"} {
+					nk := nk
+					if nk == par.keys[idx] || !isIntKey(par.keys[idx]) && (nk == "99999999999999999999" || nk == strconv.Itoa(nBases)) {
+						continue
 					}
-					for j, ok := range par.keys {
-						if j != idx {
-							ok := ok
-							add("re-key:collide", "re-key "+name+" to existing key "+ok, func(r *jn) { r.at(parentPath).keys[idx] = ok })
-						}
+					add("re-key:"+nk, "re-key "+name+" to "+nk, func(r *jn) { r.at(parentPath).keys[idx] = nk })
+				}
+				for j, ok := range par.keys {
+					if j != idx {
+						ok := ok
+						add("re-key:collide", "re-key "+name+" to existing key "+ok, func(r *jn) { r.at(parentPath).keys[idx] = ok })
 					}
 				}
 				// swap with every later sibling value
@@ -416,6 +419,21 @@ func TestVerifC08(t *testing.T) {
 		js, _ := json.Marshal(ProofList{p})
 		docs = append(docs, built{"D+range3+range4 on two attributes", js, []*gabikeys.PublicKey{k.Pk}, false})
 	}
+	// a seed whose secret key and secret-key randomiser are both 0 (an adversarial holder chooses its
+	// own secret): a_responses[0] is then 0 and can be removed without invalidating the proof
+	{
+		kA, kB := vfK("toyA"), vfK("toyB")
+		zero := []*big.Int{vfInt(0)}
+		_, bl, pks := vsBuildList([]vsSpec{{vsDisc, "toyA", 0, []int{1}}, {vsDisc, "toyB", 0, []int{2}}}, zero)
+		c, err := bl.ChallengeWithRandomizers(vfContext, vfNonce, map[string]*big.Int{"secretkey": vfInt(0)}, false)
+		if err == nil {
+			if L, err := bl.BuildDistributedProofList(c, nil); err == nil {
+				js, _ := json.Marshal(L)
+				docs = append(docs, built{"D,D with secret 0 and randomiser 0", js, pks, false})
+			}
+		}
+		_, _ = kA, kB
+	}
 	run := func(d built, seedCanon string, doc string, class, desc string) {
 		r.Eval()
 		r.Nontrivial(d.name + "|" + doc)
@@ -465,6 +483,15 @@ func TestVerifC08(t *testing.T) {
 			return x
 		}
 		verify("ProofList.Verify", func() bool { return reparse().Verify(d.pks, vfContext, vfNonce, d.sig, nil) })
+		// the same decoded objects verified twice (state cached in the proof by the first call)
+		verify("ProofList.Verify(second call on the same objects)", func() bool {
+			x := reparse()
+			func() {
+				defer func() { _ = recover() }()
+				x.Verify(d.pks, vfContext, vfNonce, d.sig, nil)
+			}()
+			return x.Verify(d.pks, vfContext, vfNonce, d.sig, nil)
+		})
 		// well-formed keys without revocation support (no ECDSA key, no G/H)
 		verify("ProofList.Verify(keys without revocation part)", func() bool { return reparse().Verify(c08NoRev(d.pks), vfContext, vfNonce, d.sig, nil) })
 		if len(l) != len(d.pks) && len(l) > 0 {
